@@ -145,7 +145,7 @@ def run(tier):
     seen = set(); fam = collections.Counter()
     for p in allp:
         res = results[p]
-        for b in res['broken']: R.broke(b)
+        for b in res['broken']: R.broke_at(p, b)
         for f in res['fns']:
             if f['disp'] in seen: continue
             seen.add(f['disp']); fam[f['input']] += 1
